@@ -421,7 +421,10 @@ class StructuredValue(FieldDefinition):
                     self.filename,
                     self.line_num,
                 )
-            value = evaluate_function(func, self.args, self.kwargs, context)
+            with self.exception_handling(
+                "Cannot evaluate function `{}`:\n {e}", [self.function_name]
+            ):
+                value = evaluate_function(func, self.args, self.kwargs, context)
         else:
             try:
                 func = context.executable_blocks()[self.function_name]
